@@ -208,6 +208,13 @@ def pmap(fn, items, seed=0, fresh=True):
     newly forked from the (pristine) parent, so that state the library keeps at module or class level cannot travel
     from one item to the next and what a shard sees does not depend on which shards ran before it in the same worker."""
     items = list(items)
+    if os.environ.get("HGMC_ONLY") == "edge":
+        # development switch (never set by ./check's registered commands): keep only the shards of the trees added last
+        from . import spec as _S
+
+        keep = {_S.key(t) for t in _S.EDGE() + _S.NDX()[-2:]}
+        items = [it for it in items if isinstance(it, tuple) and it and isinstance(it[0], dict) and "t" in it[0]
+                 and _S.key(it[0]) in keep]
     n = len(items)
     order = list(range(n))
     if n:
